@@ -7,6 +7,7 @@ import (
 	"fmt"
 	"os"
 	"path/filepath"
+	"sync"
 	"time"
 
 	"github.com/rminnich/go9p"
@@ -71,6 +72,74 @@ func (e *env) cleanup() {
 	_ = os.RemoveAll(e.root)
 }
 
+// livePipe: a connection of the library's client to the server under test, as the dead-connection monitor sees it.
+type livePipe struct {
+	cli, srv *memconn.End
+	clnt     *go9p.Clnt
+}
+
+var (
+	liveMu    sync.Mutex
+	livePipes []*livePipe
+)
+
+// guarded runs a case whose steps are blocking calls of the library's client. A call that can never return would
+// only show as a worker that stopped making progress (inconclusive); the monitor decides it on the state of the
+// connection instead: a call is outstanding at the client while nothing moves on the connection any more — no Read
+// call is made on either end, no byte is delivered or queued — over 24 consecutive samples half a second apart.
+// (The case keeps hanging in its goroutine; the worker goes on with the next case.)
+func guarded(prop string, run func(ctx *core.Ctx) core.Result) func(ctx *core.Ctx) core.Result {
+	return func(ctx *core.Ctx) core.Result {
+		liveMu.Lock()
+		livePipes = nil
+		liveMu.Unlock()
+		done := make(chan core.Result, 1)
+		go func() { done <- run(ctx) }()
+		type snap struct {
+			out  int
+			a, b [3]int64
+		}
+		last := map[*livePipe]snap{}
+		same := map[*livePipe]int{}
+		tick := time.NewTicker(500 * time.Millisecond)
+		defer tick.Stop()
+		for {
+			select {
+			case r := <-done:
+				return r
+			case <-tick.C:
+			}
+			liveMu.Lock()
+			pipes := append([]*livePipe(nil), livePipes...)
+			liveMu.Unlock()
+			for _, p := range pipes {
+				out := 0
+				oc := make(chan int, 1)
+				go func() { o, _, _ := p.clnt.VerifCounts(); oc <- o }() // detached: the client's lock may be held for good
+				select {
+				case out = <-oc:
+				case <-time.After(200 * time.Millisecond):
+					continue
+				}
+				now := snap{out, p.cli.Activity(), p.srv.Activity()}
+				if prev, ok := last[p]; ok && prev == now && now.out > 0 {
+					same[p]++
+				} else {
+					same[p] = 0
+				}
+				last[p] = now
+				if same[p] >= 24 {
+					var res core.Result
+					res.Evals = 1
+					res.Violate(prop+";connection-dead", fmt.Sprintf("%d call(s) of the client are outstanding and nothing moves on the connection any more: no Read call on either end, client side inbound %v, server side inbound %v (calls, bytes read, bytes queued) over %d samples — the transfer can never complete",
+						now.out, now.a, now.b, same[p]), map[string]interface{}{"case": ctx.Index})
+					return res
+				}
+			}
+		}
+	}
+}
+
 // client connects go9p's client library to the server and attaches (clnt.Root is set).
 func (e *env) client(msize uint32, dotu bool) (*go9p.Clnt, error) {
 	cli, srv := memconn.Pipe("client", "ufs")
@@ -79,6 +148,9 @@ func (e *env) client(msize uint32, dotu bool) (*go9p.Clnt, error) {
 	if err != nil {
 		return nil, err
 	}
+	liveMu.Lock()
+	livePipes = append(livePipes, &livePipe{cli: cli, srv: srv, clnt: c})
+	liveMu.Unlock()
 	root, err := c.Attach(nil, go9p.OsUsers.Uid2User(0), "")
 	if err != nil {
 		c.Unmount()
